@@ -201,14 +201,17 @@ CHECKS = {"C01": check_c01, "C08": check_c08}
 
 MANIFEST = {
     "C01": dict(
-        text="TLC exhaustively checks spec/KubeInformer (handleWatchEvent, getCachedObjects, enableKubeEventCb at lock granularity, the Synchronization "
-             "run with failures, other snapshot readers, the capacity-1 event channel and its consumer) for NoEarlyEvent, NoLoss(except the recorded "
-             "second-reader reset), NoStrandedEvent, per-object order and reconstruction of the cluster state; TLC behaviours are replayed as schedules "
-             "on the real resourceInformer with real goroutines parked at gate hooks, state compared after every step, and the property oracle "
-             "evaluated on what the real code delivered.",
-        note="Informer level (one resourceInformer, the Synchronization/unlock protocol); client-go delivery is injected through OnAdd/OnUpdate/OnDelete. "
-             "Bounds: 1-2 objects, 3 projections, <= 5 changes, <= 2 extra readers, <= 1 failed Synchronization.",
-        technique="TLA+ spec + TLC exhaustive check; gate-scheduled schedule replay of TLC behaviours on the real informer",
+        text="TLC exhaustively checks spec/KubeInformer (handleWatchEvent, dropSavedEvents / getCachedObjects, enableKubeEventCb at lock granularity, "
+             "the Synchronization run with failures, other snapshot readers, the capacity-1 event channel and its consumer) for NoEarlyEvent, NoLoss, "
+             "NoStrandedEvent, per-object order and reconstruction of the cluster state; TLC behaviours are replayed as schedules on the real "
+             "resourceInformer with real goroutines parked at gate hooks, state compared after every step, and the property oracle evaluated on what "
+             "the real code delivered. Further machines of the same property: spec/NsMonitor (namespaces appearing around the unlock), "
+             "spec/KubeInformer/KubeDelivery (manager callback and channel, trace validation of free runs), spec/SharedInformers (bindings sharing "
+             "one client-go informer), spec/Operator (Synchronization -> unlock -> Events on the real operator, incl. retried and combined "
+             "Synchronizations) and OperatorLog (trace validation of free-running operators).",
+        note="Informer level: one resourceInformer, client-go delivery injected through OnAdd/OnUpdate/OnDelete; 1-2 objects, 3 projections, <= 5 "
+             "changes, <= 2 extra readers, <= 1 failed Synchronization. Manager/operator levels run on kube-client's fake cluster.",
+        technique="TLA+ specs + TLC exhaustive check; gate-scheduled schedule replay of TLC behaviours on the real informer, monitor and operator; TLC trace validation of free runs",
         design="5/C01"),
     "C08": dict(
         text="spec/KubeInformer's fire decision (FireOnlyIf / FireIf / CacheFollows) checked exhaustively by TLC over projection modes and all subsets of "
